@@ -52,6 +52,9 @@ pub enum Entry {
 #[derive(Clone, Debug, Serialize, Deserialize)]
 pub struct Scn {
     pub entry: Entry,
+    /// which rewrite of the signature database the analyzers are given (0 = the bundled one)
+    #[serde(default)]
+    pub db_variant: u32,
 }
 
 pub struct C01;
@@ -324,7 +327,9 @@ impl Prop for C01 {
             }
             Entry::DbText { text: String::from_utf8_lossy(&text).to_string() }
         };
-        Scn { entry }
+        // one frame scenario in five runs against a rewritten signature database
+        let db_variant = if matches!(entry, Entry::Frames { .. }) && r.chance(1, 5) { 1 + r.below(sut::DB_VARIANTS as u64) as u32 } else { 0 };
+        Scn { entry, db_variant }
     }
 
     fn systematic(tier: Tier) -> Vec<Scn> {
@@ -341,7 +346,7 @@ impl Prop for C01 {
         }
         let mk = |kind: Kind, frames: Vec<Vec<u8>>| -> Scn {
             let trace = frames.into_iter().enumerate().map(|(i, f)| Timed { t: i as u64 * 1000, frame: f, conn: 0 }).collect();
-            Scn { entry: Entry::Frames { kind, cap: 256, via_loop: false, with_db: true, trace, probe: probe.clone() } }
+            Scn { entry: Entry::Frames { kind, cap: 256, via_loop: false, with_db: true, trace, probe: probe.clone() }, db_variant: 0 }
         };
         // (1) every (kind, length byte, position) TCP option encoding in SYN and SYN+ACK
         let kinds: Vec<u8> = (0..=8).chain([30u8, 34, 253, 255]).collect();
@@ -406,6 +411,10 @@ impl Prop for C01 {
     }
 
     fn run(scn: &Scn, st: &mut RunStats) -> Result<(), Violation> {
+        sut::set_db_variant(scn.db_variant);
+        if scn.db_variant != 0 {
+            st.fault("rewritten_signature_database");
+        }
         match &scn.entry {
             Entry::Frames { kind, cap, via_loop, with_db, trace, probe } => {
                 let mut cfg = SutCfg::new(*kind, *cap);
@@ -539,7 +548,7 @@ impl Prop for C01 {
         let mut out = vec![];
         if let Entry::Frames { kind, cap, via_loop, with_db, trace, probe } = &scn.entry {
             let n = trace.len();
-            let mk = |t: Vec<Timed>, p: Vec<Timed>| Scn { entry: Entry::Frames { kind: *kind, cap: *cap, via_loop: false, with_db: *with_db, trace: t, probe: p } };
+            let mk = |t: Vec<Timed>, p: Vec<Timed>| Scn { entry: Entry::Frames { kind: *kind, cap: *cap, via_loop: false, with_db: *with_db, trace: t, probe: p }, db_variant: scn.db_variant };
             if *via_loop {
                 out.push(mk(trace.clone(), probe.clone()));
             }
